@@ -231,11 +231,16 @@ func (r *Report) Finish() int {
 		seen[k] = true
 		uniq = append(uniq, v)
 	}
-	replayRoot := filepath.Join(r.Env.Verif, "replays", r.Prop)
+	outBase := r.Env.Verif
+	if d := os.Getenv("VERIF_OUT_DIR"); d != "" {
+		// mutant campaigns redirect evidence and replays so that the committed evidence is not overwritten
+		outBase = d
+	}
+	replayRoot := filepath.Join(outBase, "replays", r.Prop)
 	if len(uniq) > 0 {
 		// keep replay sources out of the driver module
-		os.MkdirAll(filepath.Join(r.Env.Verif, "replays"), 0o755)
-		os.WriteFile(filepath.Join(r.Env.Verif, "replays", "go.mod"), []byte("module replays\n\ngo 1.22\n"), 0o644)
+		os.MkdirAll(filepath.Join(outBase, "replays"), 0o755)
+		os.WriteFile(filepath.Join(outBase, "replays", "go.mod"), []byte("module replays\n\ngo 1.22\n"), 0o644)
 	}
 	for i, v := range uniq {
 		if i >= 10 {
@@ -307,9 +312,9 @@ func (r *Report) Finish() int {
 		"wall_s":      wall,
 		"violations":  len(uniq),
 	}
-	os.MkdirAll(filepath.Join(r.Env.Verif, "evidence"), 0o755)
+	os.MkdirAll(filepath.Join(outBase, "evidence"), 0o755)
 	b, _ := json.MarshalIndent(ev, "", " ")
-	os.WriteFile(filepath.Join(r.Env.Verif, "evidence", r.Prop+".json"), b, 0o644)
+	os.WriteFile(filepath.Join(outBase, "evidence", r.Prop+".json"), b, 0o644)
 
 	for _, id := range ids {
 		fmt.Printf("KNOWN-FINDING: property=%s %s (%s; seen %d times)\n", r.Prop, knownSeen[id].Desc, id, knownCount[id])
